@@ -5,6 +5,7 @@ import (
 	"fmt"
 	"net/url"
 	"reflect"
+	"os"
 	"regexp"
 	"strings"
 	"sync"
@@ -405,7 +406,24 @@ func c17RandString(r *Rng) string {
 	pool := []string{"<", ">", "&", "'", "\"", "\\", "/", "a", "B", ";", "#", " ", "&amp;", "&lt;", "&gt", "&#39;", "&quot;", "<a>", "</a>", "<b>", "</b>", "<br>", "<br/>", "<a/>", "<ab>", "<A>", "</B>", "<B>", "<i>", "</i>", "<I/>", "<p class=\"x\">", "<<", ">>", "\\n", "\\r", "\\\\", "\\'", "\n", "\r", "\t", "é", "ß", "日本", "😀", "𝄞", " ", "�", "\xff", "\xc3", "\xed\xa0\x80", "%", "+", "?", "=", "x y", "%41", "~", "-", "_", ".", "@", "http://x.y/?a=b&c=d", "<script>alert(1)</script>", "\x00", "\x01"}
 	n := r.Intn(12)
 	var sb strings.Builder
+	long := r.Intn(70) == 0
 	for i := 0; i < n; i++ {
+		if long && i == n/2 {
+			// one very long tag (a data: URL, a long attribute) or a long run of stray brackets: sizes around every
+			// plausible internal bound
+			size := r.Pick2([]int{300, 999, 1000, 1001, 1024, 4095, 4097, 20000, 65535, 65537}) + r.Intn(3)
+			switch r.Intn(4) {
+			case 0:
+				sb.WriteString("<img src=\"data:image/png;base64," + strings.Repeat(r.Pick([]string{"QUJD", "a/+9", "é", "x y"}), size/4) + "\">")
+			case 1:
+				sb.WriteString("<b " + strings.Repeat("x", size) + ">bold</b " + strings.Repeat(" ", size/2) + ">")
+			case 2:
+				sb.WriteString(strings.Repeat("<", size/8) + "a>")
+			default:
+				sb.WriteString("<a title='" + strings.Repeat("&", size/2) + strings.Repeat("\n", size/2) + "'>")
+			}
+			continue
+		}
 		if r.Chance(15) {
 			// random rune incl. astral
 			var ru rune
@@ -532,6 +550,58 @@ func c17FirstUse() {
 			}
 		}
 	}
+	c17ConcurrentParams()
+}
+
+// c17ConcurrentParams: goroutines use the parameterised filter (removetags) with DIFFERENT parameters at the same
+// time; each call removes the tags it names and only those. Fixed number of calls; the expected outputs are literal.
+func c17ConcurrentParams() {
+	const in = "<b>x</b><i>y</i><a>z</a><u>w</u><s>v</s><p>q</p>"
+	letters := []string{"b", "i", "a", "u", "s", "p", "b,i", "u,a"}
+	wants := make([]string, len(letters))
+	for k, l := range letters {
+		w := in
+		for _, t := range strings.Split(l, ",") {
+			w = strings.NewReplacer("<"+t+">", "", "</"+t+">", "").Replace(w)
+		}
+		wants[k] = w
+	}
+	iters := 2500
+	if os.Getenv("VERIF_TIER") == "thorough" {
+		iters = 40000
+	}
+	var wg sync.WaitGroup
+	var mu sync.Mutex
+	start := make(chan struct{})
+	for g := range letters {
+		wg.Add(1)
+		go func(g int) {
+			defer wg.Done()
+			defer func() { recover() }()
+			p := pongo2.AsValue(letters[g])
+			<-start
+			for it := 0; it < iters; it++ {
+				v, err := pongo2.ApplyFilter("removetags", pongo2.AsValue(in), p)
+				got := ""
+				if err != nil {
+					got = "error: " + err.Error()
+				} else {
+					got = v.String()
+				}
+				if got != wants[g] {
+					mu.Lock()
+					if c17FirstUseFailure == nil {
+						c17FirstUseFailure = D{"filter": "removetags", "param": letters[g], "input": q(in), "output": q(got), "expected": q(wants[g]), "call_number": it,
+							"why": fmt.Sprintf("%d goroutines were calling removetags with different tag lists at the same time; alone the call gives the expected output", len(letters))}
+					}
+					mu.Unlock()
+					return
+				}
+			}
+		}(g)
+	}
+	close(start)
+	wg.Wait()
 }
 
 func init() {
